@@ -361,7 +361,22 @@ func (vc *FuncVC) translateAxioms() {
 		vc.axioms = append(vc.axioms, axiomT{name: a.name, term: a.text, syms: headSymbols(a.text)})
 	}
 	dummy := &State{heaps: map[string]Term{}, alloc: vc.sc.Const("alloc.0", ArraySort(SRef, SBool)), fr: &frame{regs: map[ssa.Value]Value{}}}
+	type declT struct {
+		ad    *AxiomDecl
+		lemma bool
+	}
+	var decls []declT
 	for _, ad := range vc.w.specs.Axioms {
+		decls = append(decls, declT{ad, false})
+	}
+	if !vc.bv {
+		// lemmas are integer-mode statements; bit-vector mode functions neither use nor prove them
+		for _, ad := range vc.w.specs.Lemmas {
+			decls = append(decls, declT{ad, true})
+		}
+	}
+	for _, dd := range decls {
+		ad := dd.ad
 		var pkg *types.Package
 		for _, p := range vc.w.pkgs {
 			for _, f := range p.CompiledGoFiles {
@@ -369,6 +384,11 @@ func (vc *FuncVC) translateAxioms() {
 					pkg = p.Types
 				}
 			}
+		}
+		if vc.bv && pkg != nil && pkg != vc.fn.Pkg.Pkg {
+			// bit-vector mode: integers of contracts are 64-bit vectors there, so axioms written for another package's
+			// (integer mode) contracts have no reading; only the function's own package and the trusted theories apply
+			continue
 		}
 		if pkg == nil {
 			pkg = vc.fn.Pkg.Pkg
@@ -409,7 +429,7 @@ func (vc *FuncVC) translateAxioms() {
 				text = fmt.Sprintf("(forall (%s) %s)", strings.Join(bs, " "), text)
 			}
 		}
-		vc.axioms = append(vc.axioms, axiomT{name: ad.Name, term: text, syms: headSymbols(text)})
+		vc.axioms = append(vc.axioms, axiomT{name: ad.Name, term: text, syms: headSymbols(text), lemma: dd.lemma})
 	}
 }
 
